@@ -5,7 +5,7 @@
 
 use std::cell::Cell;
 use std::collections::HashMap;
-use std::sync::atomic::{AtomicBool, AtomicI64, AtomicU64, AtomicUsize, Ordering};
+use std::sync::atomic::{AtomicBool, AtomicI64, AtomicU64, Ordering};
 use std::sync::{Arc, Mutex, OnceLock};
 use std::time::{Duration, Instant};
 
@@ -66,10 +66,10 @@ pub static SITE_HITS: [AtomicU64; 8] = [AtomicU64::new(0), AtomicU64::new(0), At
 
 /// optional scheduler callback for non-decoder sites
 pub type SchedFn = fn(site: &'static str, a: u64, b: u64);
-static SCHED: AtomicUsize = AtomicUsize::new(0);
+static SCHED: std::sync::atomic::AtomicPtr<()> = std::sync::atomic::AtomicPtr::new(std::ptr::null_mut());
 
 pub fn set_sched(f: Option<SchedFn>) {
-	SCHED.store(f.map(|f| f as usize).unwrap_or(0), Ordering::SeqCst);
+	SCHED.store(f.map(|f| f as *mut ()).unwrap_or(std::ptr::null_mut()), Ordering::SeqCst);
 }
 
 fn hook(site: &'static str, a: u64, b: u64) {
@@ -123,8 +123,8 @@ fn hook(site: &'static str, a: u64, b: u64) {
 		return;
 	}
 	let s = SCHED.load(Ordering::Relaxed);
-	if s != 0 {
-		let f: SchedFn = unsafe { std::mem::transmute::<usize, SchedFn>(s) };
+	if !s.is_null() {
+		let f: SchedFn = unsafe { std::mem::transmute::<*mut (), SchedFn>(s) };
 		f(site, a, b);
 	}
 }
